@@ -58,6 +58,13 @@ pub(crate) struct SubRule {
 
 impl SubRule {
 
+    /// The part of the rule line taken up by the input elements from `from` on (what a deletion removes)
+    fn input_span(&self, from: usize) -> Position {
+        let first = self.input[from.min(self.input.len() - 1)].position;
+        let last = self.input[self.input.len() - 1].position;
+        Position::new(first.group, first.line, first.start, last.end.max(first.end))
+    }
+
     fn get_contexts(&self) -> Vec<(&Vec<Item>, &Vec<Item>)> {
         match &self.context {
             Some(x) => match &x.kind {
@@ -770,7 +777,7 @@ impl SubRule {
                             pos = i;
                             // remove segment                             
                             if res_word.syllables.len() <= 1 && res_word.syllables[i.syll_index].segments.len() <= 1 {
-                                return Err(RuleRuntimeError::DeletionOnlySeg)
+                                return Err(RuleRuntimeError::DeletionOnlySeg(self.input_span(0)))
                             }
                             res_word.syllables[i.syll_index].segments.remove(i.seg_index);
                             // if that was the only segment in that syllable, remove the syllable
@@ -781,7 +788,7 @@ impl SubRule {
                         MatchElement::Syllable(i, _) => {
                             // remove syllable
                             if res_word.syllables.len() <= 1 {
-                                return Err(RuleRuntimeError::DeletionOnlySyll)
+                                return Err(RuleRuntimeError::DeletionOnlySyll(self.input_span(0)))
                             }
                             pos.syll_index = i;
                             pos.seg_index = 0;
@@ -794,7 +801,7 @@ impl SubRule {
                             // if they both have stress, highest wins
                             // if they both have tone, join them i.e. ma5a1 > ma:51
                             if res_word.syllables.len() <= 1 {
-                                return Err(RuleRuntimeError::DeletionOnlySyll)
+                                return Err(RuleRuntimeError::DeletionOnlySyll(self.input_span(0)))
                             }
                             
                             if i == 0 || i >= res_word.syllables.len() {
@@ -2095,7 +2102,7 @@ impl SubRule {
                         debug_assert!(res_word.in_bounds(sp));
                         // remove segment                             
                         if res_word.syllables.len() <= 1 && res_word.syllables[sp.syll_index].segments.len() <= 1 {
-                            return Err(RuleRuntimeError::DeletionOnlySeg)
+                            return Err(RuleRuntimeError::DeletionOnlySeg(self.input_span(start_index)))
                         }
                         res_word.syllables[sp.syll_index].segments.remove(sp.seg_index);
                         // if that was the only segment in that syllable, remove the syllable
@@ -2109,7 +2116,7 @@ impl SubRule {
                     MatchElement::Syllable(i, _) => {
                         // remove syllable
                         if res_word.syllables.len() <= 1 {
-                            return Err(RuleRuntimeError::DeletionOnlySyll)
+                            return Err(RuleRuntimeError::DeletionOnlySyll(self.input_span(start_index)))
                         }
                         pos.syll_index = i;
                         pos.seg_index = 0;
@@ -2122,7 +2129,7 @@ impl SubRule {
                         // if they both have stress, highest wins
                         // if they both have tone, join them i.e. ma5a1 > ma:51
                         if res_word.syllables.len() <= 1 {
-                            return Err(RuleRuntimeError::DeletionOnlySyll)
+                            return Err(RuleRuntimeError::DeletionOnlySyll(self.input_span(start_index)))
                         }
                         if i == 0 || i >= res_word.syllables.len() {
                             // can't delete a word boundary
